@@ -1247,6 +1247,16 @@ def run_one(tape, only=None):
         ex.run()
     finally:
         _real_shutil.rmtree(root, ignore_errors=True)
+        # a changed save_cache may put its backup into the system's temporary
+        # directory (another file system: that is the point of the cross-device
+        # model); crashed executions leave those files behind - sweep them
+        import glob
+        import tempfile
+        for f in glob.glob(os.path.join(tempfile.gettempdir(), "info.json.*")):
+            try:
+                os.remove(f)
+            except OSError:
+                pass
     for v in ex.V:
         if v.get("extra") is None:
             v["extra"] = {"crash": None}
